@@ -347,6 +347,22 @@ func flatSpecIn(n *Node, vals url.Values, keyOf func(Field) string, trim bool) m
 // whose fields are looked up in the same flat record.
 type FlatNested struct{}
 
+var (
+	bodyMethods = []string{"POST", "PUT", "PATCH", "DELETE", "POST"}
+	formMethods = []string{"POST", "PUT", "PATCH"} // net/http reads a form body for these methods only
+	jsonCTypes  = []string{"application/json", "application/json; charset=utf-8", "application/json;charset=utf-8", "application/json",
+		"application/json; charset=utf-8; profile=https://example.com/schemas/user.json", "application/json; utf-8", "application/json; charset=", "application/json;"}
+	formCTypes = []string{"application/x-www-form-urlencoded", "application/x-www-form-urlencoded; charset=UTF-8", "application/x-www-form-urlencoded;charset=UTF-8"}
+)
+
+func fnv32(s string) uint32 {
+	h := uint32(2166136261)
+	for i := 0; i < len(s); i++ {
+		h = (h ^ uint32(s[i])) * 16777619
+	}
+	return h >> 3
+}
+
 // RenderFE renders the logical record for one front end.
 func RenderFE(fe string, root *Node, logical Val) (*Rendered, error) {
 	keyOf := KeyOfFE(fe)
@@ -370,8 +386,10 @@ func RenderFE(fe string, root *Node, logical Val) (*Rendered, error) {
 		if fe == FEJSON {
 			r.Data = zjson.Decode(strings.NewReader(r.Text))
 		} else {
-			req, _ := http.NewRequest("POST", "http://example.test/x", strings.NewReader(r.Text))
-			req.Header.Set("Content-Type", "application/json")
+			// the request's method and the Content-Type's parameters vary with the document (no effect on the record)
+			k := int(fnv32(r.Text))
+			req, _ := http.NewRequest(bodyMethods[k%len(bodyMethods)], "http://example.test/x", strings.NewReader(r.Text))
+			req.Header.Set("Content-Type", jsonCTypes[(k/7)%len(jsonCTypes)])
 			r.Data = zhttp.Request(req)
 		}
 	case FEForm, FEQuery:
@@ -383,8 +401,9 @@ func RenderFE(fe string, root *Node, logical Val) (*Rendered, error) {
 		r.Text = vals.Encode()
 		r.SpecIn = flatSpecIn(root, vals, keyOf, false)
 		if fe == FEForm {
-			req, _ := http.NewRequest("POST", "http://example.test/x", strings.NewReader(r.Text))
-			req.Header.Set("Content-Type", "application/x-www-form-urlencoded")
+			k := int(fnv32(r.Text))
+			req, _ := http.NewRequest(formMethods[k%len(formMethods)], "http://example.test/x", strings.NewReader(r.Text))
+			req.Header.Set("Content-Type", formCTypes[(k/7)%len(formCTypes)])
 			r.Data = zhttp.Request(req)
 		} else {
 			req, _ := http.NewRequest("GET", "http://example.test/x?"+r.Text, nil)
